@@ -145,6 +145,12 @@ def cases(tier, rng):
     for cut in (0, 1, 3, 4, 7, 8, 10, 13):
         out.append(Case("midi.read", [list(good[:cut])], tag="reject:truncated-header", corrupt=("truncated", cut)))
     out.append(Case("midi.read", [list(b"RIFF") + list(good[4:])], tag="reject:not-midi", corrupt=("header", 0)))
+    # the two chunk tags exchanged, doubled, or in the other case: each is a well-known tag, but in the wrong place
+    for htag, ttag, what in ((b"MTrk", b"MTrk", "header tag MTrk"), (b"MThd", b"MThd", "track tag MThd"), (b"MTrk", b"MThd", "tags exchanged"),
+                             (b"mthd", b"MTrk", "header tag in lower case"), (b"MThd", b"mtrk", "track tag in lower case"),
+                             (b"MThd", b"MThD", "track tag MThD")):
+        bad = list(htag) + list(good[4:tag_at]) + list(ttag) + list(good[tag_at + 4:])
+        out.append(Case("midi.read", [bad], tag="reject:swapped-tags", corrupt=("chunk tags", what)))
     out.append(Case("midi.read", [list(good)], tag="read:good"))
     return out
 
